@@ -256,13 +256,23 @@ G("einsum", "np.einsum",
 G("einsum_path", "np.einsum_path", pos=lambda c: c.f("ij,jk->ik", c.A((2, 3)), c.A((3, 2)))[0])
 
 # ---- comparisons / sets -----------------------------------------------------------------------------------
-def _near(c):
+def _near(c, rtol=1e-5, atol=1e-8):
+    """operand pair of a closeness test with tolerances (rtol, atol); data class "band": element by element the second
+    operand lies just outside the first's tolerance away from zero (close only in the order (a, b)), just inside it
+    towards zero (close only in the order (b, a)), is equal, or far away"""
+    np = c.np
     a = c.raw()
     x = c.wrap(a)
 
     def other():
         b = a.copy()
-        if b.size and b.dtype.kind != "i":
+        if c.dc == "band" and b.dtype.kind == "f":
+            rt, at = c.extra.get("rtol", rtol), c.extra.get("atol", atol)
+            d = at + rt * np.abs(a)  # NumPy's threshold with a as the SECOND operand
+            k = np.arange(a.size).reshape(a.shape) % 4
+            sg = np.where(a >= 0, 1.0, -1.0)
+            b = np.where(k == 0, a + sg * d * (1 + rt / 2), np.where(k == 1, a - sg * d * (1 - rt / 2), np.where(k == 2, a, a + 3 * d + 1)))
+        elif b.size and b.dtype.kind != "i":
             b.flat[0] += 1e-9
         return c.wrap(b)
 
@@ -271,8 +281,10 @@ def _near(c):
 
 G("close", "np.isclose np.allclose",
   pos=lambda c: c.f(*_near(c)),
-  tol=lambda c: c.f(*_near(c), 0.0, 1e-12),
-  tolkw=lambda c: c.f(*_near(c), rtol=1e-12, atol=0.0),
+  tol=lambda c: c.f(*_near(c, 0.0, 1e-12), 0.0, 1e-12),
+  tolkw=lambda c: c.f(*_near(c, 1e-12, 0.0), rtol=1e-12, atol=0.0),
+  loose=lambda c: c.f(*_near(c, 0.25, 0.0), 0.25, 0.0),
+  loosekw=lambda c: c.f(*_near(c, 0.0625, 0.5), atol=0.5, rtol=0.0625),
   nan=lambda c: (lambda a: c.f(a, c.second(a, lambda: _with_nan(c)), equal_nan=True))(_with_nan(c)))
 G("aeq", "np.array_equal np.array_equiv",
   pos=lambda c: c.f(*_near(c)),
